@@ -11,7 +11,8 @@ from vlib import util as U
 # shared point / shape / parameter generators of the two polynomial properties live in c09
 from props.c09 import (H, make_points, shaped, point_shapes, array_shapes, shape_label, shape_tuple, size_of, ab_pairs, ab_class, orders, n_class,
                        variants, var_of, var_labels, present, as32, contain, rtol_of, reuse_check, call, settle_kind, HERMITES, nm_pairs as nm_pairs_ext,
-                       with_big_shapes, q2d_contain)
+                       with_big_shapes, q2d_contain, NEAR_RELS, NEAR_BASES, CHEBY_PAIRS, near_special_pairs, order_as, params_as, prefail, settle_sum_kind,
+                       coefs_of, BIG_SHAPES, ab_pairs9, ab_class9)
 
 RULE = ("Values: Hypothesis draws family, order (0..3 forced, otherwise uniform to 40 quick / 120 thorough; Zernike n to 30 / 60, "
         "Dickson n to 40 / 80, Q2d n to 12, |m| to 10; Gram matrices to N = 40 / 120 for the Jacobi family - capped at 40 when a weight "
@@ -53,6 +54,17 @@ RULE = ("Values: Hypothesis draws family, order (0..3 forced, otherwise uniform 
         "displaced by a relative 1e-12 .. 1e-4 (unchanged code against scipy there: <= 3e-12 up to order 120).  Boolean options (norm= of zernike_nm / "
         "zernike_nm_seq, cartesian_grid= of xy) are given as the object True / False, as a numpy bool (element of a boolean array, result of a comparison of "
         "numpy scalars) and as 1 / 0; the (n, m) terms of Q2d_nm_c_to_a_b ('iterable') also as zip(ns, ms) / a generator expression.  "
+        "Every routine of the package that sums polynomials (jacobi_sum_clenshaw and row 0 of jacobi_sum_clenshaw_der, clenshaw_qbfs and row 0 of "
+        "clenshaw_qbfs_der, clenshaw_q2d and row 0 of clenshaw_q2d_der, the sags of compute_z_zprime_Qbfs / _Qcon / _Q2d) is also evaluated with the "
+        "coefficient of one order set to c - 1, -1, 2.5, 1e-17, 1e30; integer for integer containers - and all others zero (optionally followed by zero "
+        "orders): the result must be c times the polynomial of that order, at Python floats / ints, numpy scalars, 0-D ... 3-D arrays (rarely > 2**16 "
+        "points) of every dtype and layout the routine accepts, with or without a caller-supplied alphas= workspace (fresh, or used before by a call of "
+        "the same shape with other coefficients and points).  Forbes' slope orthonormality is also formed from slopes taken ONE evaluation point per call "
+        "(Python float, np.float64, np.float32, 0-D array, length-1 array) through compute_z_zprime_Qbfs / compute_z_zprime_Q2d (m = 0 table only, or the "
+        "cosine and sine families of one azimuthal order), node by node of the quadrature rule.  Jacobi parameter pairs include alpha = -beta != 0 "
+        "(Chebyshev 3rd / 4th kind and relatives) and alpha = beta as classes of their own.  Orders are also handed over as np.int64 (what an np.arange "
+        "loop yields), shape parameters as np.float64 scalars; one case in four makes a request that fails (evaluation points None, exception caught by "
+        "the caller) immediately before the checked call.  "
         "Non-trivial = order >= 6 or non-tabulated shape parameter or scalar / N-D points or a Gram entry with m != n or a non-default presentation "
         "of the arguments.")
 ASSUMPTIONS = [
@@ -116,65 +128,11 @@ def trig_value(fam, n, x):
             'cheby3': lambda: np.cos((n + 0.5) * th) / np.cos(th / 2), 'cheby4': lambda: np.sin((n + 0.5) * th) / np.sin(th / 2)}[fam]()
 
 
-# ---- shape parameters nearly, but not exactly, on a special case ----------------------------------------------------------
-# Every special case of the Jacobi family is a statement about exactly equal numbers: alpha = beta (ultraspherical: Legendre, Gegenbauer,
-# Chebyshev 1st / 2nd kind - no constant term in the recurrence), alpha = -beta and alpha + beta = -1 (0/0 in the closed form of the first
-# recurrence coefficients), the half-integer Chebyshev pairs, (0, 0), the Zernike / Qcon pairs (0, m).  A pair that is merely *close* to one
-# of them (relative 1e-12 .. 1e-4) is an ordinary pair and must be evaluated as such.  Unchanged code against scipy for all of these, orders
-# up to 120: <= 3e-12 of the largest value (RT = 1e-8).
-NEAR_RELS = [1e-4, -1e-4, 3e-5, -3e-5, 1e-5, -1e-5, 3e-6, -3e-6, 1e-6, -1e-6, 1e-7, -1e-9, 1e-12]
-NEAR_BASES = [-0.9, -0.75, -0.5, -0.25, 0.25, 0.5, 1, 1.5, 2, 3, 4, 6]
-CHEBY_PAIRS = [[-0.5, -0.5], [0.5, 0.5], [-0.5, 0.5], [0.5, -0.5]]
+# shape parameters nearly, but not exactly, on a special case: NEAR_RELS, NEAR_BASES, CHEBY_PAIRS, near_special_pairs live in c09 (shared)
 
 
-def near_special_pairs():
-    base = st.one_of(st.sampled_from(NEAR_BASES), U.nice_float(-0.95, 6.0).filter(lambda a: abs(a) > 1e-3))
-    rel = st.sampled_from(NEAR_RELS)
-    small = st.sampled_from([0.0, 1e-4, -1e-5, 1e-6, -1e-8, 1e-9, 1e-12])
-    return st.one_of(
-        # alpha ~ beta, either one displaced
-        st.tuples(base, rel, st.booleans()).map(lambda t: [t[0], t[0] * (1 + t[1])] if t[2] else [t[0] * (1 + t[1]), t[0]]),
-        st.tuples(base, rel, st.booleans()).map(lambda t: [t[0], t[0] * (1 + t[1])] if t[2] else [t[0] * (1 + t[1]), t[0]]),
-        # alpha ~ -beta and alpha + beta ~ -1, relative displacements (c09.ab_pairs has the absolute ones down to 5e-17)
-        st.tuples(st.one_of(st.sampled_from([-0.9, -0.5, -0.25, 0.25, 0.5, 0.9]), U.nice_float(-0.9, 0.9).filter(lambda a: abs(a) > 1e-3)), rel).map(
-            lambda t: [t[0], -t[0] * (1 + t[1])]),
-        st.tuples(st.one_of(st.sampled_from([-0.9, -0.75, -0.5, -0.25, -0.1]), U.nice_float(-0.9, -0.1)), rel).map(lambda t: [t[0], (-1.0 - t[0]) * (1 + t[1])]),
-        # next to the Chebyshev half-integer pairs, to Legendre (0, 0) and to the Zernike / Qcon pairs (0, m)
-        st.tuples(st.sampled_from(CHEBY_PAIRS), rel, rel, st.sampled_from([0, 1, 2])).map(
-            lambda t: [t[0][0] * (1 + (t[1] if t[3] != 1 else 0.0)), t[0][1] * (1 + (t[2] if t[3] != 0 else 0.0))]),
-        st.tuples(small, small).filter(lambda t: t != (0.0, 0.0)).map(list),
-        st.tuples(small.filter(lambda d: d != 0), st.integers(1, 6), st.one_of(st.just(0.0), rel)).map(lambda t: [t[0], t[1] * (1 + t[2])]),
-    )
-
-
-def ab_pairs7():
-    """c09.ab_pairs (tabulated, general, on / absolutely next to the lines alpha + beta = 0, -1, far ends) and the nearly-special pairs"""
-    return st.one_of(ab_pairs(), ab_pairs(), near_special_pairs())
-
-
-def ab_class7(a, b):
-    """class label of a parameter pair; pairs next to (not on) an equality-defined special case get their own classes"""
-    base = ab_class(a, b)
-    if base in ('ab:tabulated', 'ab:sum=0', 'ab:sum=-1'):
-        return base
-
-    def close(p, q):
-        return abs(p - q) <= 1.5e-4 * max(1.0, abs(q))
-    if any(close(a, c[0]) and close(b, c[1]) for c in CHEBY_PAIRS):
-        return 'ab:near-chebyshev-pair'
-    if close(a, 0) and close(b, 0):
-        return 'ab:near-(0,0)'
-    if close(a, 0) and b >= 0.5 and close(b, round(b)) and (a != 0 or b != round(b)):
-        return 'ab:near-(0,m)'
-    if a != b and close(a, b):
-        return 'ab:nearly-equal'
-    if base == 'ab:near-special-line':
-        return base
-    if close(a, -b):
-        return 'ab:near-alpha=-beta:relative'
-    if close(a + b, -1.0):
-        return 'ab:near-sum=-1:relative'
-    return base
+ab_pairs7 = ab_pairs9       # c09.ab_pairs (tabulated, mirrored, equal, general, on / next to the lines alpha + beta = 0, -1, far ends) and the nearly-special pairs
+ab_class7 = ab_class9       # class label of a pair; pairs next to (not on) an equality-defined special case get their own classes
 
 
 FAMS = ['jacobi', 'jacobi', 'jacobi', 'legendre', 'cheby1', 'cheby2', 'cheby3', 'cheby4', 'hermite_He', 'hermite_H', 'laguerre', 'laguerre']
@@ -212,9 +170,13 @@ def check_values(case, ctx):
     ctx.label(fam, n_class(n), shape_label(shape), 'edge' if case['edge'] else 'interior', 'size>2^16' if size_of(shape) > 65536 else 'size<=2^16')
     if fam == 'jacobi':
         ctx.label(ab_class7(*p))
+    ctx.label('n-as:' + v['n_as'])
+    if p:
+        ctx.label('params-as:' + v['p_as'])
     nt = var_labels(ctx, v, shape)
     ctx.nt(nt or n >= 6 or isinstance(shape, str) or len(shape) != 1 or (fam == 'jacobi' and ab_class(*p) != 'ab:tabulated') or
-           (fam == 'laguerre' and p[0] not in (0, 0.5, 1)))
+           (fam == 'laguerre' and p[0] not in (0, 0.5, 1)) or v['n_as'] != 'int' or (p and v['p_as'] != 'python'))
+    narg, parg = order_as(n, v), params_as(p, v)       # what is handed over; n and p stay the plain numbers the reference is built from
     if v['pre32']:
         g32 = call(ctx, 'float32', fn, n, *p, as32(xarg))
         U.check_shape(g32, shape_tuple(shape), fam + ':float32', '%s(%d, %s, float32 x)' % (fam, n, p))
@@ -227,10 +189,11 @@ def check_values(case, ctx):
     def verify(got, bucket):
         U.check_shape(got, np.shape(want), bucket, '%s(%d, %s, x) for x of shape %s' % (fam, n, p, shape))
         U.check_close(got, want, rt, bucket, '%s(n=%d, params=%s, x: %s %s) vs scipy.special' % (fam, n, p, v['xkind'], shape_label(shape)), atol=rt * scale)
-    got = call(ctx, n_class(n), fn, n, *p, xarg)
+    prefail(ctx, v, fn, narg, *parg, None)
+    got = call(ctx, n_class(n), fn, narg, *parg, xarg)
     verify(got, bucket)
     n2 = n + 1 if not (fam in HERMITES and v['xkind'] == 'int' and n + 1 > 15) else n - 1
-    reuse_check(ctx, v, bucket, got, (xarg,), lambda: ctx.call(fn, n2, *p, xarg), lambda: ctx.call(fn, n, *p, xarg), verify)
+    reuse_check(ctx, v, bucket, got, (xarg,), lambda: ctx.call(fn, n2, *p, xarg), lambda: ctx.call(fn, narg, *parg, xarg), verify)
     if fam in ('cheby1', 'cheby2', 'cheby3', 'cheby4'):
         inner = base[np.abs(base) <= 0.95]
         if inner.size:
@@ -512,7 +475,9 @@ def check_zernike(case, ctx):
     def verify(got, bucket):
         U.check_shape(got, np.shape(want), bucket, 'zernike_nm(%d,%d) for r of shape %s' % (n, m, shape))
         U.check_close(got, want, rt, bucket, 'zernike_nm(n=%d, m=%d, norm=%r, r: %s %s) vs explicit radial sum' % (n, m, narg, kind, shape_label(shape)), atol=rt * N)
-    got = call(ctx, 'm=0' if m == 0 else 'm!=0', zernike_nm, n, m, rarg, targ, norm=narg)
+    ctx.label('n-as:' + v['n_as'])
+    prefail(ctx, v, zernike_nm, n, m, None, None, norm=narg)
+    got = call(ctx, 'm=0' if m == 0 else 'm!=0', zernike_nm, order_as(n, v), order_as(m, v), rarg, targ, norm=narg)
     verify(got, bucket)
     reuse_check(ctx, v, bucket, got, (rarg, targ), lambda: ctx.call(zernike_nm, n + 2, m, rarg, targ, norm=flag_as(not norm, norm_as)),
                 lambda: ctx.call(zernike_nm, n, m, rarg, targ, norm=narg), verify)
@@ -755,8 +720,8 @@ def check_q_values(case, ctx):
     kind = v['xkind']
     u, base = make_points(case['seed'], shape, 0.0, 1.0, case['edge'], salt=1, kind=kind)
     uarg = present(u, shape, v)
-    ctx.label(fn, shape_label(shape), 'edge' if case['edge'] else 'interior')
-    nt = var_labels(ctx, v, shape)
+    ctx.label(fn, shape_label(shape), 'edge' if case['edge'] else 'interior', 'n-as:' + v['n_as'])
+    nt = var_labels(ctx, v, shape) or v['n_as'] != 'int'
     if fn == 'Qcon':
         n = case['n']
         ctx.label(n_class(n))
@@ -770,7 +735,8 @@ def check_q_values(case, ctx):
         def verify(got, bucket):
             U.check_shape(got, np.shape(want), 'Qcon', 'Qcon(%d, u) for u of shape %s' % (n, shape))
             U.check_close(got, want, rt, bucket, 'Qcon(n=%d, u: %s %s) vs u^4 P_n^(0,4)(2u^2-1)' % (n, kind, shape_label(shape)), atol=rt * float(np.max(np.abs(want_full))))
-        got = call(ctx, n_class(n), Qcon, n, uarg)
+        prefail(ctx, v, Qcon, n, None)
+        got = call(ctx, n_class(n), Qcon, order_as(n, v), uarg)
         verify(got, 'Qcon:' + n_class(n))
         reuse_check(ctx, v, 'Qcon:' + n_class(n), got, (uarg,), lambda: ctx.call(Qcon, n + 1, uarg), lambda: ctx.call(Qcon, n, uarg), verify)
     elif fn == 'Qbfs':
@@ -788,7 +754,8 @@ def check_q_values(case, ctx):
         def verify(got, bucket):
             U.check_shape(got, np.shape(want), 'Qbfs', 'Qbfs(%d, u) for u of shape %s' % (n, shape))
             U.check_close(got, want, rt, bucket, 'Qbfs(n=%d, u: %s %s) vs u^2(1-u^2) times Forbes tabulated Q_%d^bfs(u^2)' % (n, kind, shape_label(shape), n), atol=rt)
-        got = call(ctx, 'n<=5', Qbfs, n, uarg)
+        prefail(ctx, v, Qbfs, n, None)
+        got = call(ctx, 'n<=5', Qbfs, order_as(n, v), uarg)
         verify(got, 'Qbfs:table')
         # higher orders: same value whatever the shape / dtype / layout of the argument
         n2 = case['n']
@@ -822,7 +789,8 @@ def check_q_values(case, ctx):
             U.check_shape(got, np.shape(shaped(flat, shape)), 'Q2d', 'Q2d(%d,%d) for u of shape %s' % (n, m, shape))
             U.check_close(got, shaped(flat, shape), rt, bucket, 'Q2d(n=%d, m=%d) on %s %s vs the same points as a float64 vector' % (n, m, kind, shape_label(shape)),
                           atol=rt * float(np.max(np.abs(flat))))
-        got = call(ctx, ('m=0' if m == 0 else 'm!=0') + (':u-is-t' if alias else ''), Q2d, n, m, uarg, targ)
+        prefail(ctx, v, Q2d, n, m, None, None)
+        got = call(ctx, ('m=0' if m == 0 else 'm!=0') + (':u-is-t' if alias else ''), Q2d, order_as(n, v), order_as(m, v), uarg, targ)
         verify(got, 'Q2d:shape-dependence' + (':u-is-t' if alias else ''))
         reuse_check(ctx, v, 'Q2d', got, (uarg, targ), lambda: ctx.call(Q2d, n + 1, -m, uarg, targ), lambda: ctx.call(Q2d, n, m, uarg, targ), verify)
         if m == 0:
@@ -1202,7 +1170,11 @@ def check_seq(case, ctx):
                 rt = rtol_of(v, n, RT)
                 U.check_close(got[k], wants[k][0], rt, '%s_seq:%s%s' % (fam, n_class(n), suffix), '%s_seq(%s, %s, x: %s %s)[%d] (order %d) vs scipy.special' % (
                     fam, ns, p, v['xkind'], shape_label(shape), k, n), atol=rt * wants[k][1])
-        got = call(ctx, 'seq', seqfn, nsarg, *p, xarg)
+        parg = params_as(p, v)
+        if p:
+            ctx.label('params-as:' + v['p_as'])
+        prefail(ctx, v, seqfn, nsarg, *parg, None)
+        got = call(ctx, 'seq', seqfn, nsarg, *parg, xarg)
         verify(got, '')
         ns2 = [n + 1 for n in ns][:-1] or [ns[0] + 1]
         reuse_check(ctx, v, fam + '_seq', got, (xarg, nsarg), lambda: ctx.call(seqfn, ns2, *p, xarg), lambda: ctx.call(seqfn, nsarg, *p, xarg),
@@ -1301,6 +1273,256 @@ def check_seq(case, ctx):
     reuse_check(ctx, v, name, got, (uarg, nsarg), lambda: ctx.call(seqfn, ns2, uarg), lambda: ctx.call(seqfn, nsarg, uarg), lambda g, b: verify(g, b[len(name):]))
 
 
+# ---- the polynomials through the sum evaluators (one coefficient set), at every kind of evaluation point -------------------------
+# Every routine of the package that sums polynomials - the Clenshaw sums and the sag evaluators built on them - is documented for
+# 'ndarray or float_like' coordinates (jacobi_sum_clenshaw*) or is handed them by its callers (a ray, a vertex, a single field point).
+# With the coefficient of order n set to c and all others zero each of them is c times the polynomial of order n itself.
+SUM_ROUTINES = ['jacobi_sum_clenshaw', 'jacobi_sum_clenshaw', 'jacobi_sum_clenshaw_der', 'clenshaw_qbfs', 'clenshaw_qbfs_der', 'compute_z_zprime_Qbfs',
+                'compute_z_zprime_Qbfs', 'compute_z_zprime_Qcon', 'compute_z_zprime_Qcon', 'clenshaw_q2d', 'clenshaw_q2d_der', 'compute_z_zprime_Q2d',
+                'compute_z_zprime_Q2d']
+HOT = [1.0, 1.0, 1.0, 1.0, -1.0, 2.5, 1e-17, 1e30]          # the one coefficient: 1, and the magnitudes of real data (linear in it)
+WITH_WORKSPACE = ('jacobi_sum_clenshaw', 'clenshaw_qbfs', 'clenshaw_q2d')
+
+
+def strat_sums(tier):
+    NQ = {'quick': 12, 'thorough': 20}[tier]
+    return with_big_shapes(st.fixed_dictionaries({
+        'fn': st.sampled_from(SUM_ROUTINES), 'n': orders(tier), 'nq': st.one_of(st.integers(0, NQ), st.integers(0, 4)), 'pad': st.sampled_from([0, 0, 0, 1, 3]),
+        'p': ab_pairs7(), 'm': st.one_of(st.integers(-10, 10), st.sampled_from([0, 1, -1, 2, 3, 14, -20])), 'hot': st.sampled_from(HOT), 'j': st.integers(1, 3),
+        'shape': point_shapes(), 'edge': st.booleans(), 'seed': U.seeds, 'v': variants()}), limit=12)
+
+
+def check_sums(case, ctx):
+    """jacobi_sum_clenshaw / jacobi_sum_clenshaw_der row 0, clenshaw_qbfs / clenshaw_qbfs_der row 0, clenshaw_q2d / clenshaw_q2d_der row 0 and the sag of
+    compute_z_zprime_Qbfs / _Qcon / _Q2d with the coefficient of one order set to c (all others zero, possibly with trailing zero orders) equal c times the
+    polynomial of that order - scipy's P_n^(a,b), Forbes' tabulated Qbfs (n <= 5; above: Qbfs on a float64 vector, pinned by qbfs_gram), u^4 P_n^(0,4)(2u^2-1),
+    Q2d on float64 vectors (pinned by q2d_gram) - at Python floats / ints, numpy scalars, 0-D ... 3-D arrays of every dtype and layout the routine accepts,
+    with or without a caller-supplied alphas= workspace (fresh, or used before by a call of the same shape)."""
+    from prysm import polynomials as P
+    from prysm.polynomials import qpoly as Q
+    fn, shape, hot, pad, j = case['fn'], case['shape'], float(case['hot']), case['pad'], case['j']
+    is_q2d = 'q2d' in fn.lower()
+    is_jac = fn.startswith('jacobi')
+    n = case['nq'] if is_q2d else case['n']
+    if size_of(shape) > 65536 and n > 12:
+        n = n % 13
+    m = case['m']
+    a, b = case['p']
+    # compute_z_zprime_Q2d combines u and t: float coordinates only; the others allocate in the dtype of x (Python ints, complex arrays accepted)
+    v = var_of(case, ('f64', 'f32')) if fn == 'compute_z_zprime_Q2d' else settle_sum_kind(var_of(case), shape)
+    if v['cs_as'] in ('intlist', 'intarray'):
+        hot = {1.0: 1, -1.0: -1, 2.5: 2}.get(hot, 3)
+    if v['xkind'] == 'f32' and not 1e-6 < abs(hot) < 1e6:
+        hot = 1.0 if isinstance(hot, float) else 1       # the magnitudes of real data are for double precision
+    cs = [0.0 if isinstance(hot, float) else 0] * n + [hot] + [0.0 if isinstance(hot, float) else 0] * pad
+    carg = contain(cs, v['cs_as'])
+    lo = -1.0 if is_jac else 0.0
+    x, base = make_points(case['seed'], shape, lo, 1.0, case['edge'], kind=v['xkind'])
+    xarg = present(x, shape, v)
+    xf = np.asarray(x, dtype=float)
+    kind = v['xkind']
+    ctx.label(fn, n_class(n), shape_label(shape), 'edge' if case['edge'] else 'interior', 'size>2^16' if size_of(shape) > 65536 else 'size<=2^16',
+              'trailing-zero-orders' if pad else 'highest-order-set', 'cs-as:' + v['cs_as'], 'coefficient:%s' % ('1' if hot == 1 else 'order-1' if 1e-6 < abs(hot) < 1e6 else 'tiny' if abs(hot) < 1 else 'huge'),
+              'n-as:' + v['n_as'])
+    var_labels(ctx, v, shape)
+    ctx.nt(True)
+    rt = rtol_of(v, n, RT)
+    use_buf = v['buf'] if fn in WITH_WORKSPACE else 'none'
+    ctx.label('alphas=:' + use_buf)
+    bsuf = '' if use_buf == 'none' else ':alphas-' + use_buf
+    scal = ':scalar-point' if isinstance(shape, str) or len(shape) == 0 else ''
+    kw = {}
+
+    def workspace(rows, first):
+        """alphas= of the documented shape (len(coefficients), *x.shape), in the dtype the routine would allocate; 'used': after `first(buffer)`"""
+        if use_buf == 'none':
+            return
+        kw['alphas'] = np.zeros((rows,) + shape_tuple(shape), dtype=xarg.dtype if hasattr(xarg, 'dtype') else float)
+        if use_buf == 'used':
+            first(kw['alphas'])
+    other = [0.5 - 0.25 * k for k in range(len(cs))]        # coefficients of the earlier user of the workspace: every order present
+    if is_jac:
+        ctx.label(ab_class7(a, b), 'params-as:' + v['p_as'], 'alpha=-beta!=0' if a == -b and a != 0 else 'alpha=beta' if a == b else 'alpha!=+-beta')
+        aarg, barg = params_as([a, b], v)
+        want_full = hot * sps.eval_jacobi(n, a, b, base)
+        pcls = 'alpha=-beta!=0' if a == -b and a != 0 else 'alpha=beta' if a == b else 'general-parameters'
+        what = '%s(s = %r at order %d of %d, a=%r, b=%r, x: %s %s)' % (fn, hot, n, len(cs), a, b, kind, shape_label(shape))
+        if v['pre32']:
+            call(ctx, 'float32', P.jacobi_sum_clenshaw, carg, a, b, as32(xarg))
+        prefail(ctx, v, getattr(P, fn), carg, aarg, barg, None)
+        if fn == 'jacobi_sum_clenshaw':
+            workspace(len(cs), lambda buf: ctx.call(P.jacobi_sum_clenshaw, other, b + 0.5, a + 0.25, xarg * 0.5, alphas=buf))
+            got = call(ctx, n_class(n) + scal, P.jacobi_sum_clenshaw, carg, aarg, barg, xarg, **kw)
+        else:
+            al = call(ctx, n_class(n) + scal, P.jacobi_sum_clenshaw_der, carg, aarg, barg, xarg, j=order_as(j, v))
+            ctx.require(np.ndim(al) >= 2 and np.shape(al)[0] == j + 1, 'jacobi_sum_clenshaw_der:shape', 'alphas has shape %s, expected leading dimension j+1=%d' % (np.shape(al), j + 1))
+            got = al[0][0]          # "alphas[0,0] will contain the sum of the polynomials"
+        bucket = '%s:one-coefficient:%s:%s%s%s' % (fn, pcls, 'n=0' if n == 0 else 'n=1' if n == 1 else 'n>=2', scal, bsuf)
+        ref = 'scipy.special.eval_jacobi'
+    elif not is_q2d:
+        usq = xarg * xarg
+        if 'Qcon' in fn:
+            want_full = hot * base ** 4 * sps.eval_jacobi(n, 0, 4, 2 * base * base - 1)
+            ref = 'u^4 P_n^(0,4)(2u^2-1)'
+        else:
+            xx = base * base
+            want_full = hot * (xx * (1 - xx) * qbfs_table(n, xx) if n <= 5 else np.asarray(ctx.call(P.Qbfs, n, base.copy())))
+            ref = "u^2(1-u^2) times Forbes' tabulated polynomial" if n <= 5 else 'Qbfs(n, u) on a float64 vector'
+        what = '%s(cs = %r at order %d of %d, u: %s %s)' % (fn, hot, n, len(cs), kind, shape_label(shape))
+        f = getattr(Q, fn)
+        if fn.startswith('compute'):
+            if v['pre32']:
+                u32 = as32(xarg)
+                call(ctx, 'float32', f, carg, u32, u32 * u32)
+            prefail(ctx, v, f, carg, None, None)
+            res = call(ctx, n_class(n) + scal, f, carg, xarg, usq)
+            ctx.require(isinstance(res, tuple) and len(res) == 2, fn + ':return', 'expected (z, zprime)')
+            got = res[0]
+        elif fn == 'clenshaw_qbfs':
+            workspace(len(cs), lambda buf: ctx.call(Q.clenshaw_qbfs, other, usq * 0.5, alphas=buf))
+            prefail(ctx, v, f, carg, None)
+            got = call(ctx, n_class(n) + scal, Q.clenshaw_qbfs, carg, usq, **kw)
+        else:
+            al = call(ctx, n_class(n) + scal, Q.clenshaw_qbfs_der, carg, usq, j=order_as(j, v))
+            ctx.require(np.ndim(al) >= 2 and np.shape(al)[0] == j + 1, 'clenshaw_qbfs_der:shape', 'alphas has shape %s, expected leading dimension j+1=%d' % (np.shape(al), j + 1))
+            # documented: S = (x (1 - x)) 2 (alphas[0][0] + alphas[0][1]); a lone Q0 term is evaluated as [c0, 0]
+            got = (xf * xf) * (1 - xf * xf) * 2 * (al[0][0] + (al[0][1] if np.shape(al)[1] > 1 else 0))
+        bucket = '%s:one-coefficient:%s%s%s' % (fn, 'n=0' if n == 0 else 'n=1' if n == 1 else 'n>=2', scal, bsuf)
+    else:
+        am = abs(m)
+        if fn != 'compute_z_zprime_Q2d' and am == 0:
+            am = m = 1          # the 2D-Q Clenshaw sums are for azimuthal orders >= 1 (m = 0 is the Qbfs sum)
+        tk = 'f32' if kind == 'f32' else 'f64'
+        t, tbase = make_points(case['seed'], shape, -math.pi, 2 * math.pi, False, salt=2, kind=tk)
+        if tbase.size != base.size:         # all radii exactly 0 (v.xzero): the base vector of u is those zeros followed by eight points of the interval
+            tbase = np.concatenate([tbase[:size_of(shape)], tbase[:base.size - size_of(shape)]])
+        ctx.label('m=0' if m == 0 else 'm=1' if am == 1 else 'm=2,3' if am <= 3 else 'm=4..10' if am <= 10 else 'm>10', 'cosine' if m >= 0 else 'sine')
+        if fn == 'compute_z_zprime_Q2d':
+            want_full = hot * np.asarray(ctx.call(P.Q2d, n, m, base.copy(), tbase.copy()))
+            cm0, ams, bms = q2d_table([(n, m)], 0, 'one')
+            row = cm0 if m == 0 else ams[m - 1] if m > 0 else bms[-m - 1]
+            row[n] = hot
+            row += [0.0 if isinstance(hot, float) else 0] * pad
+            if v['cs_as'] in ('intlist', 'intarray'):
+                cm0, ams, bms = [int(c) for c in cm0], [[int(c) for c in r_] for r_ in ams], [[int(c) for c in r_] for r_ in bms]
+            cargs = q2d_contain(cm0, ams, bms, v['cs_as'])
+            targ = present(t, shape, v, layout=v['layout2'], kind=tk)
+            what = 'compute_z_zprime_Q2d(coefficient of (n=%d, m=%d) = %r, u: %s %s)' % (n, m, hot, kind, shape_label(shape))
+            if v['pre32']:
+                call(ctx, 'float32', Q.compute_z_zprime_Q2d, *cargs, as32(xarg), as32(targ))
+            prefail(ctx, v, Q.compute_z_zprime_Q2d, *cargs, None, None)
+            res = call(ctx, ('m=0' if m == 0 else 'm!=0') + scal, Q.compute_z_zprime_Q2d, *cargs, xarg, targ)
+            ctx.require(isinstance(res, tuple) and len(res) == 3, 'compute_z_zprime_Q2d:return', 'expected (z, dr, dt)')
+            got = res[0]
+            ref = 'Q2d(n, m, u, t) on float64 vectors'
+        else:
+            # sum c_n Q_n^m(u^2) from the alpha sums: .5 alphas[0] - 2/5 alphas[3] if m = 1 and N > 2, .5 alphas[0] otherwise; times u^m on the meridian t = 0
+            want_full = hot * np.asarray(ctx.call(P.Q2d, n, am, base.copy(), np.zeros_like(base)))
+            usq = xarg * xarg
+            marg = order_as(am, v)
+            what = '%s(cns = %r at order %d of %d, m=%d, usq: %s %s)' % (fn, hot, n, len(cs), am, kind, shape_label(shape))
+            if fn == 'clenshaw_q2d':
+                workspace(len(cs), lambda buf: ctx.call(Q.clenshaw_q2d, other, am + 1, usq * 0.5, alphas=buf))
+                prefail(ctx, v, Q.clenshaw_q2d, carg, marg, None)
+                rows = call(ctx, n_class(n) + scal, Q.clenshaw_q2d, carg, marg, usq, **kw)
+            else:
+                al = call(ctx, n_class(n) + scal, Q.clenshaw_q2d_der, carg, marg, usq, j=order_as(j, v))
+                ctx.require(np.ndim(al) >= 2 and np.shape(al)[0] == j + 1, 'clenshaw_q2d_der:shape', 'alphas has shape %s, expected leading dimension j+1=%d' % (np.shape(al), j + 1))
+                rows = al[0]
+            ctx.require(np.shape(rows)[:1] == (len(cs),), fn + ':shape', 'alpha sums have shape %s, expected leading dimension %d' % (np.shape(rows), len(cs)))
+            S = 0.5 * rows[0] - 2 / 5 * rows[3] if am == 1 and len(cs) - 1 > 2 else 0.5 * rows[0]
+            got = S * xf ** am
+            ref = 'Q2d(n, m, u, 0) on a float64 vector'
+        bucket = '%s:one-coefficient:%s%s%s' % (fn, 'm=0' if m == 0 else 'm=1' if am == 1 else 'm>=2', scal, bsuf)
+    want = shaped(want_full, shape)
+    scale = max(float(np.max(np.abs(want_full))), abs(hot) * 1e-3)
+    U.check_shape(got, np.shape(want), bucket, what)
+    U.check_close(got, want, rt, bucket, what + ' vs %r times %s' % (hot, ref), atol=rt * scale)
+
+
+# ---- slope orthonormality with the slopes taken point by point ----------------------------------------------------------
+POINT_KINDS = ['pyfloat', 'pyfloat', 'np.float64', '0-d', 'len-1', 'np.float32']
+
+
+def strat_pointwise(tier):
+    return st.fixed_dictionaries({'route': st.sampled_from(['Qbfs', 'Qbfs', 'Q2d-cm0', 'Q2d']), 'N': st.integers(0, {'quick': 8, 'thorough': 14}[tier]),
+                                  'm': st.one_of(st.integers(1, 4), st.sampled_from([1, 7])), 'how': st.sampled_from(POINT_KINDS)})
+
+
+def check_pointwise(case, ctx):
+    """Forbes' slope orthonormality with every slope taken at ONE evaluation point per call (Python float, numpy scalar, 0-D array, length-1 array):
+    the sag evaluators with the coefficient of order n set to 1, called node by node of the Gauss-Chebyshev (x uniform theta) rule, return sags equal to
+    Qbfs(n) / Q2d(n, m) on the node array and slopes whose Gram matrix under Forbes' inner product is the identity."""
+    from prysm.polynomials import Qbfs, Q2d
+    from prysm.polynomials.qpoly import compute_z_zprime_Qbfs, compute_z_zprime_Q2d
+    route, N, how = case['route'], case['N'], case['how']
+    if route == 'Q2d':
+        N = min(N, 4)
+    m = case['m'] if route == 'Q2d' else 0
+    ctx.nt(True)
+    ctx.label('route:' + route, 'point-as:' + how, 'N<=2' if N <= 2 else 'N>2')
+    conv = {'pyfloat': float, 'np.float64': np.float64, 'np.float32': np.float32, '0-d': lambda q: np.array(float(q)), 'len-1': lambda q: np.array([float(q)])}[how]
+    f32 = how == 'np.float32'
+    tolg, tolv = (2e-3, 1e-4) if f32 else (1e-8, 1e-9)
+
+    def num(q):
+        q = np.asarray(q, dtype=float)
+        ctx.require(q.size == 1, 'compute_z_zprime_%s:one-coefficient:single-point:shape' % ('Qbfs' if route == 'Qbfs' else 'Q2d'),
+                    'one evaluation point (%s) gave an output of shape %s' % (how, q.shape))
+        return float(q.reshape(-1)[0])
+    if route in ('Qbfs', 'Q2d-cm0'):
+        K = 2 * N + 8
+        up = cheb_nodes(K)[:K // 2]
+        if f32:
+            up = up.astype(np.float32).astype(float)       # nodes exactly representable in single precision
+        ctx.tally('gram_entries', (N + 1) ** 2)
+        Z, D = np.zeros((N + 1, up.size)), np.zeros((N + 1, up.size))
+        for n in range(N + 1):
+            cs = [0.0] * n + [1.0]
+            for k_, uk in enumerate(up):
+                pt = conv(uk)
+                if route == 'Qbfs':
+                    res = call(ctx, 'single-point:' + how, compute_z_zprime_Qbfs, cs, pt, pt * pt)
+                    ctx.require(isinstance(res, tuple) and len(res) == 2, 'compute_z_zprime_Qbfs:return', 'expected (z, zprime)')
+                else:
+                    res = call(ctx, 'single-point:' + how, compute_z_zprime_Q2d, cs, [], [], pt, conv(0.25 * k_))
+                    ctx.require(isinstance(res, tuple) and len(res) == 3, 'compute_z_zprime_Q2d:return', 'expected (z, dr, dt)')
+                Z[n, k_], D[n, k_] = num(res[0]), num(res[1])
+            name = 'compute_z_zprime_Qbfs' if route == 'Qbfs' else 'compute_z_zprime_Q2d'
+            U.check_close(Z[n], np.asarray(ctx.call(Qbfs, n, up)), tolv, name + ':one-coefficient:single-point:value',
+                          '%s with the coefficient of order %d set to 1, evaluated one point (%s) at a time, vs Qbfs(%d, u) on the node array' % (name, n, how, n), atol=tolv)
+        gram_assert(ctx, D @ D.T * 2 / K, np.eye(N + 1), tolg, lambda i, j_: (
+            '%s:one-coefficient:single-point:slope-gram:%s' % (name, 'norm' if i == j_ else 'orthogonality'),
+            "<S_%d', S_%d'>, the slopes returned by %s one point (%s) at a time" % (i, j_, name, how)))
+        return
+    modes = [(n, sg * m) for sg in (1, -1) for n in range(N + 1)]
+    K = 2 * N + m + 10
+    K += K % 2
+    T = 2 * m + 3
+    un = cheb_nodes(K)[:K // 2]
+    th = 2 * np.pi * np.arange(T) / T
+    if f32:
+        un, th = un.astype(np.float32).astype(float), th.astype(np.float32).astype(float)
+    Ug, Tg = np.meshgrid(un, th, indexing='ij')
+    ctx.tally('gram_entries', len(modes) ** 2)
+    rows = []
+    for n, mm in modes:
+        cm0, ams, bms = q2d_table([(n, mm)], 0, 'one')
+        z, dr, dt = np.zeros(Ug.shape), np.zeros(Ug.shape), np.zeros(Ug.shape)
+        for idx in np.ndindex(*Ug.shape):
+            res = call(ctx, 'single-point:' + how, compute_z_zprime_Q2d, cm0, ams, bms, conv(Ug[idx]), conv(Tg[idx]))
+            ctx.require(isinstance(res, tuple) and len(res) == 3, 'compute_z_zprime_Q2d:return', 'expected (z, dr, dt)')
+            z[idx], dr[idx], dt[idx] = num(res[0]), num(res[1]), num(res[2])
+        U.check_close(z, np.asarray(ctx.call(Q2d, n, mm, Ug, Tg)), tolv, 'compute_z_zprime_Q2d:one-coefficient:single-point:value',
+                      'compute_z_zprime_Q2d with the coefficient of (n=%d, m=%d) set to 1, evaluated one point (%s) at a time, vs Q2d on the node grid' % (n, mm, how), atol=tolv)
+        rows.append(np.concatenate([dr.ravel(), (dt / Ug).ravel()]))
+    Da = np.array(rows)
+    wgt = (np.pi / K) * (2 * np.pi / T) / np.pi ** 2
+    gram_assert(ctx, Da @ Da.T * wgt, np.eye(len(modes)), tolg, lambda i, j_: (
+        'compute_z_zprime_Q2d:one-coefficient:single-point:slope-gram:%s' % ('norm' if i == j_ else 'orthogonality'),
+        '<grad Q%s, grad Q%s>, the gradients returned by compute_z_zprime_Q2d one point (%s) at a time' % (modes[i], modes[j_], how)))
+
+
 CLAUSES = [
     HypClause('values_1d', strat_values, check_values, examples={'quick': 2000, 'thorough': 8000}, shards={'quick': 2, 'thorough': 8}),
     HypClause('dickson', strat_dickson, check_dickson, examples={'quick': 400, 'thorough': 2000}, shards={'quick': 2, 'thorough': 8}),
@@ -1316,4 +1538,6 @@ CLAUSES = [
     HypClause('q2d_one_coefficient', strat_q2d_onehot, check_q2d_onehot, examples={'quick': 300, 'thorough': 1500}, shards={'quick': 1, 'thorough': 4}),
     HypClause('q2d_term_in_both_families', strat_q2d_twin, check_q2d_twin, examples={'quick': 300, 'thorough': 1500}, shards={'quick': 1, 'thorough': 4}),
     HypClause('values_seq', strat_seq, check_seq, examples={'quick': 500, 'thorough': 3000}, shards={'quick': 2, 'thorough': 8}),
+    HypClause('sum_evaluators_one_coefficient', strat_sums, check_sums, examples={'quick': 1200, 'thorough': 6000}, shards={'quick': 2, 'thorough': 8}),
+    HypClause('slopes_point_by_point', strat_pointwise, check_pointwise, examples={'quick': 60, 'thorough': 300}, shards={'quick': 2, 'thorough': 6}),
 ]
